@@ -130,6 +130,18 @@ theorem block_typeAnnos {o : Option Bytes} {q : Pool} (visible : Bool) {as : Lis
       (fun q' hq => ⟨hn, getUtf8_of hq.good (a.mono hq.le), hl, fun sa hsa => hs sa hsa q' hq, hb⟩)
       (fun st _ => by cases visible <;> simp [SClassAttr.apply, hm])
 
+theorem block_module {t : ClassFacts} {o : Option Bytes} {q : Pool}
+    (hok : ∀ m, t.module = some m → ModuleOk m)
+    (c : (t.module = none ∧ o = none) ∨
+      (∃ (m : Module) (l : SModule), t.module = some m ∧ Present o q sModule l.encode ∧ l.encode.length < 4294967296 ∧
+        ModuleAt q m l)) :
+    Block o q (fun c => c.module = none) (fun c => { c with module := t.module }) := by
+  rcases c with ⟨hf, rfl⟩ | ⟨m, l, hf, ⟨nc, rfl, hn, a⟩, hl, ha⟩
+  · exact block_absent (fun c hc => by cases c; simp_all)
+  · exact block_present (.module nc l)
+      (fun q' hq => ⟨hn, getUtf8_of hq.good (a.mono hq.le), module_legal hq.good (ha.mono hq.le) (hok m hf), hl⟩)
+      (fun st hst => by simp [SClassAttr.apply, hst, hf, module_fact ha (hok m hf)])
+
 theorem block_packages {t : ClassFacts} {o : Option Bytes} {q : Pool}
     (c : (t.modulePackages = none ∧ o = none) ∨
       (∃ (ps : List JStr) (ls : List (Nat × JStr)), t.modulePackages = some ps ∧ Present o q sModulePackages (encRefs ls) ∧
@@ -201,14 +213,35 @@ theorem blocks_unknown {t : ClassFacts} (hok : ∀ a ∈ t.attrs, a.name ∉ cla
     (hlen : ncs.length = t.attrs.length)
     (hunk : ∀ x ∈ ncs.zip t.attrs, x.1 < 65536 ∧ Utf8At q x.1 x.2.name ∧ x.2.bytes.length < 4294967296) :
     Blocks ((ncs.zip t.attrs).map (fun x => attrFrame x.1 x.2.bytes)) q (fun _ => True)
-      (fun c => { c with attrs := c.attrs ++ t.attrs }) := by
+      (fun st => ({ st.1 with attrs := st.1.attrs ++ t.attrs }, st.2)) := by
   refine ⟨(ncs.zip t.attrs).map fun x => SClassAttr.unknown x.1 x.2.name x.2.bytes, ?_, ?_, ?_⟩
-  · simp [List.map_map, Function.comp_def, SClassAttr.frame, SClassAttr.raw]
+  · simp [List.map_map, Function.comp_def, ownClass, SClassAttr.frame, SClassAttr.raw]
   · intro a ha q' hq
     obtain ⟨x, hx, rfl⟩ := List.mem_map.mp ha
     obtain ⟨hn, hu, hb⟩ := hunk x hx
     exact ⟨hn, getUtf8_of hq.good (hu.mono hq.le), hok x.2 (List.of_mem_zip hx).2, hb⟩
   · intro st _
     exact applyAll_class_unknown st ncs t.attrs hlen
+
+/-- the `Record` block: sets the components and the "a `Record` attribute was seen" flag of the accumulator -/
+theorem ablock_record {t : ClassFacts} {o : Option Bytes} {q : Pool}
+    (c : (t.recordComponents = [] ∧ o = none) ∨
+      (t.recordComponents ≠ [] ∧ ∃ ls : List RecordLayout,
+        Present o q sRecord (be16 ls.length ++ ls.flatMap RecordLayout.encode) ∧
+        ls.length < 65536 ∧ (be16 ls.length ++ ls.flatMap RecordLayout.encode).length < 4294967296 ∧
+        (∀ l ∈ ls, Sound q (fun rp => l.Legal rp)) ∧ mapOpt RecordLayout.facts ls = some t.recordComponents)) :
+    GBlock ownClass o q (fun st => st.2.2 = false)
+      (fun st => ({ st.1 with recordComponents := st.1.recordComponents ++ t.recordComponents }, st.2.1,
+        st.2.2 || !t.recordComponents.isEmpty)) := by
+  rcases c with ⟨hf, rfl⟩ | ⟨hne, ls, ⟨nc, rfl, hn, a⟩, hlt, hb, hs, hfacts⟩
+  · exact gblock_absent (fun st _ => by rw [hf]; simp)
+  · refine gblock_present (O := ownClass) (.record nc ls)
+      (fun q' hq => ⟨hn, getUtf8_of hq.good (a.mono hq.le), hlt, fun l hl => hs l hl q' hq, hb⟩) ?_
+    intro st hst
+    have hne' : t.recordComponents.isEmpty = false := by
+      cases h : t.recordComponents with
+      | nil => exact absurd h hne
+      | cons _ _ => rfl
+    simp [ownClass, SClassAttr.apply, hst, hfacts, hne']
 
 end ClassWriteFull
